@@ -1164,8 +1164,15 @@ class Engine:
         c = self.contracts.get(qualname)
         if c is None:
             raise EngineUnsupported(f"call to {qualname}: no contract")
+        args, kwargs = list(args), dict(kwargs)
+        if kwargs and qualname in extract.functions():
+            # f(a, b=x) and f(a, x) are the same call: keyword arguments that continue the positional prefix are passed on as
+            # positional ones (the real parameter names of the tree at hand), so a caller view need not care how a call is spelled
+            params = [p for p in extract.func(qualname).params if p != "self"]
+            while len(args) < len(params) and params[len(args)] in kwargs:
+                args.append(kwargs.pop(params[len(args)]))
         try:
-            return c.apply(self, st, selfv, list(args), dict(kwargs), site)
+            return c.apply(self, st, selfv, args, kwargs, site)
         except NotImplementedError:
             # the callee is verified on its own but has no caller view (it is not called from the verified code on the
             # unchanged tree): execute its real body in place - sound, merely not modular
